@@ -113,3 +113,7 @@ def three_operators_same_step(inp):
             if err > 1e-9:
                 bad.append({'step': s, 'ops_order': order, 'max_error': err})
     return {'violates': bool(bad), 'detail': bad[:3]}
+
+
+# thorough tier (bounded native sweeps): (function, inputs, obligation of the open finding it reproduces or None)
+THOROUGH = [('nt_alignment', {}, None), ('three_operators_same_step', {}, None)]
